@@ -598,6 +598,9 @@ def hand_cases():
   add("local-alias:assign:wrong-operator:update_ff", ["s.in_ = InPort( Bits8 )", "s.out = OutPort( Bits8 )", "@update_ff", "def up_al():", "  x = s.out", "  x @= s.in_"], "UpdateFFBlockWriteError")
   add("local-alias:loop:wrong-operator:update", ["s.in_ = InPort( Bits8 )", "s.outs = [ OutPort( Bits8 ) for _ in range(2) ]", "@update", "def up_al():", "  for o_ in s.outs:", "    o_ <<= s.in_"], "UpdateBlockWriteError")
   # other forms found by the fourth audit
+  lbc = _cls("HLeaf", ["s.in_ = InPort( Bits8 )", "s.out = OutPort( Bits8 )", "s.in_ //= s.out", "@update", "def up_l():", "  s.out @= 1"])
+  C.append(("loopback:made-by-the-component-itself", HAND_HEAD + lbc + _cls("HandD", ["s.c = HLeaf()"]), "InvalidConnectionError", ()))
+  C.append(("loopback:made-by-the-component-and-by-its-parent", HAND_HEAD + lbc + _cls("HandD", ["s.c = HLeaf()", "s.c.in_ //= s.c.out"]), "InvalidConnectionError", ()))
   add("placeholder:connect", ["s.in_ = InPort( Bits8 )", "s.out = OutPort( Bits8 )", "s.out //= s.in_"], "InvalidPlaceholderError", extra="class HandD_unused: pass\n")
   C[-1] = (C[-1][0], C[-1][1].replace("class HandD( Component )", "class HandD( Component, Placeholder )"), C[-1][2], C[-1][3])
   add("func-then-block-same-name", ["s.in_ = InPort( Bits8 )", "s.o1 = OutPort( Bits8 )", "s.o2 = OutPort( Bits8 )", "@s.func", "def f():", "  s.o1 @= 1", "@update", "def f():", "  s.o2 @= s.in_",
